@@ -528,6 +528,10 @@ def check_sum(ctx):
     if RAW is None:
         return
     RAWcan = canon(RAW)
+    # the mapping is read-only from here on: the columns and the log-density are both taken from it, as drawn
+    ws = A.storage_writes(fn, lambda e, dc=dc: e is dc)
+    ctx.check(R, ws[0][0] if ws else site, "the draws are stored and evaluated as drawn", not ws,
+              (ws[0][1] if ws else "").replace("the input", "the mapping of draws") + ": the returned column (and the value its log-density is evaluated at) is no longer the draw of that variable", key="raw-write")
 
     def is_raw(e, st):
         return canon(I(e, st)) == RAWcan
